@@ -33,6 +33,30 @@ class Kind1: ...
 KINDS = [Kind0, Kind1]
 
 
+def metadata(op):
+    """the Kubernetes `metadata` an op carries: name, resourceVersion (when given) and whatever else the
+    object has — generation, uid, labels, annotations, managedFields, creationTimestamp"""
+    m = {"name": op["name"]}
+    if op.get("version") is not None:
+        m["resourceVersion"] = op["version"]
+    m.update(op.get("meta") or {})
+    return m
+
+
+def realistic_meta(r, kind, name, generation):
+    m = {"uid": f"uid-{kind}-{name}", "creationTimestamp": "2025-01-01T00:00:00Z"}
+    if generation is not None:
+        m["generation"] = generation
+    y = r.random()
+    if y < 0.5:
+        m["labels"] = r.choice([{}, {"app": "x"}, {"koreo.dev/active": "false"}, {"koreo.dev/active": "True", "team": "t"}])
+    if y > 0.3:
+        m["annotations"] = r.choice([{}, {"note": str(r.randrange(100))}, {"kubectl.kubernetes.io/last-applied-configuration": "{}"}])
+    if r.random() < 0.4:
+        m["managedFields"] = [{"manager": r.choice(["kubectl", "koreo"]), "operation": "Update"}]
+    return m
+
+
 class Tok:
     """a prepared resource; some are falsy on purpose (truthiness must not matter to the cache)"""
 
@@ -108,9 +132,7 @@ class World:
         kind, name = KINDS[op["kind"]], op["name"]
         k = op["op"]
         if k == "offer":
-            meta = {"name": name}
-            if op["version"] is not None:
-                meta["resourceVersion"] = op["version"]
+            meta = metadata(op)
             spec = dict(op["spec"])
             before = self.calls
             try:
@@ -132,9 +154,7 @@ class World:
             got = await c.delete_from_cache(kind, name, op["version"])
             return ({"k": "unit"} if got is None else {"k": "unit", "odd": repr(got)}), None
         if k == "deleteMeta":
-            meta = {"name": name}
-            if op["version"] is not None:
-                meta["resourceVersion"] = op["version"]
+            meta = metadata(op)
             try:
                 got = await c.delete_resource_from_cache(kind, meta)
             except TypeError:
@@ -276,6 +296,8 @@ async def run_history(mods, ops, trace):
                         return i, what
                     if a is not cur[1] or b.resource is not cur[1] or b.resource_version != cur[0]:
                         what = "lookups do not return the result of the most recently offered version"
+                        if b.resource_version != cur[0]:
+                            what += f" (entry is stored under version {b.resource_version!r}, offered resourceVersion was {cur[0]!r})"
                         if raised_after_preparing and kk == key:
                             what += (f" (the offer of version {op['version']!r} prepared and then raised "
                                      f"SubscriptionCycle; cached version is {b.resource_version!r})")
@@ -297,6 +319,24 @@ def gen_history(r):
     focus = r.random() < 0.4   # some histories hammer one or two keys
     subby = r.random() < 0.5   # half of the histories declare subscriptions (cycles included)
     allkeys = [(i, n) for i in range(2) for n in NAMES]
+
+    gens = {}                  # generation per key, moving independently of resourceVersion
+    rich = r.random() < 0.7    # most histories carry full Kubernetes metadata
+
+    def meta(kind, name):
+        if not rich or r.random() < 0.15:
+            return None
+        g = gens.get((kind, name), 1)
+        y = r.random()
+        if y < 0.35:
+            g += 1                                  # a spec change
+        elif y < 0.42:
+            g = None                                # objects without generation
+        elif y < 0.47:
+            g = 0
+        if g:
+            gens[(kind, name)] = g
+        return realistic_meta(r, kind, name, g)
 
     def subs():
         if not subby or r.random() < 0.4:
@@ -322,14 +362,14 @@ def gen_history(r):
             nm = "" if r.random() < 0.02 else name
             ops.append({"op": "offer", "kind": kind, "name": nm, "version": v,
                         "spec": {"id": nid, "fail": r.random() < 0.3},
-                        "sys": r.choice([None, None, nid]), "subs": subs()})
+                        "sys": r.choice([None, None, nid]), "subs": subs(), "meta": meta(kind, nm)})
             if v and nm:
                 current[(kind, nm)] = v
         elif x < 0.56:
             cur = current.get((kind, name))
             y = r.random()
             v = cur if (cur and y < 0.3) else r.choice(VERSIONS + ["7", "7", None, ""] if y > 0.9 else VERSIONS + ["7"])
-            ops.append({"op": "deleteMeta", "kind": kind, "name": name, "version": v})
+            ops.append({"op": "deleteMeta", "kind": kind, "name": name, "version": v, "meta": meta(kind, name)})
             if v:
                 current.pop((kind, name), None)
         elif x < 0.68:
@@ -349,7 +389,8 @@ def gen_history(r):
                 if r.random() < 0.5:                       # delete then re-offer of an old version
                     nid += 1
                     ops.append({"op": "offer", "kind": kind, "name": name, "version": r.choice([old, "1"]),
-                                "spec": {"id": nid, "fail": r.random() < 0.3}, "sys": None, "subs": subs()})
+                                "spec": {"id": nid, "fail": r.random() < 0.3}, "sys": None, "subs": subs(),
+                                "meta": meta(kind, name)})
                     current[(kind, name)] = ops[-1]["version"]
         elif x < 0.86:
             ops.append({"op": "lookup", "kind": kind, "name": name})
@@ -380,7 +421,8 @@ def gen_turn_history(r):
             v = cur if (cur and r.random() < 0.2) else r.choice([cur + 1, cur + 1, 1, 2, 3])
             ver[i] = v
             ops.append({"op": "offer", "kind": kind, "name": name, "version": str(v),
-                        "spec": {"id": nid, "fail": r.random() < 0.15, "subs": watch[i]}, "sys": None})
+                        "spec": {"id": nid, "fail": r.random() < 0.15, "subs": watch[i]}, "sys": None,
+                        "meta": realistic_meta(r, kind, name, r.choice([None, 1, 1, 2])) if r.random() < 0.7 else None})
         elif x < 0.65:
             ops.append({"op": r.choice(["delete", "deleteMeta"]), "kind": kind, "name": name,
                         "version": r.choice([None, "9"])})
@@ -458,8 +500,7 @@ async def run_turn_history(mods, ops):
             before = calls
             if k == "offer":
                 await cache.prepare_and_cache(
-                    resource_class=kind, preparer=preparers[op["kind"]],
-                    metadata={"name": op["name"], "resourceVersion": op["version"]}, spec=dict(op["spec"]))
+                    resource_class=kind, preparer=preparers[op["kind"]], metadata=metadata(op), spec=dict(op["spec"]))
                 cur = latest.get(key)
                 if cur is not None and cur[0] == op["version"]:
                     if calls != before:
@@ -474,7 +515,7 @@ async def run_turn_history(mods, ops):
                 if cur is not None and (not op["version"] or op["version"] == cur[0]):
                     del latest[key]
             elif k == "deleteMeta":
-                await cache.delete_resource_from_cache(kind, {"name": op["name"], "resourceVersion": op["version"]})
+                await cache.delete_resource_from_cache(kind, metadata(op))
                 latest.pop(key, None)
             bad = audit(i, f"after {k}")
             if bad:
@@ -579,9 +620,17 @@ async def explore(ck, mods, drv, cases, what):
             continue
         kinds = set()
         versions = {}
+        lastgen = {}
         for j, (op, g) in enumerate(zip(ops, got)):
             ck.count(f"op:{op['op']}")
             o = g["out"]
+            if op["op"] == "offer" and (op.get("meta") or {}).get("generation"):
+                prev = lastgen.get((op["kind"], op["name"]))
+                if prev is not None and prev[0] == op["meta"]["generation"] and prev[1] != op["version"] \
+                        and o["k"] == "returned" and o["prepared"]:
+                    ck.count("offer:new-version-same-generation-prepared")
+                    kinds.add("same-generation")
+                lastgen[(op["kind"], op["name"])] = (op["meta"]["generation"], op["version"])
             if o["k"] == "returned":
                 tag = ("prepared-" if o["prepared"] else "cached-") + o["resource"]["c"]
                 ck.count(f"offer:{tag}")
@@ -701,13 +750,18 @@ def run(tier: str) -> int:
 
     kutil.run(main())
     return ck.finish(
-        rule="random histories of 1-60 offer/delete/lookup/system-data operations over 3 names × 2 kinds, "
-             "versions '1'..'3' going back and forth, duplicate offers of the cached version, malformed "
-             "offers (no/empty version, empty name), failing preparers (30 %), deletes by name / current "
-             "version / stale version / empty version, delete-then-re-offer of the old version; "
-             "non-trivial = at least three different kinds of event (prepared-ok, prepared-failed, "
-             "cached-ok, cached-failed, typeError, delete-removed, delete-stale-kept, delete-absent, a "
-             "version offered again after another one) in one history; distinct by op list",
+        rule="family A: random histories of 1-60 offer/delete/delete-by-metadata/lookup/system-data operations "
+             "over 3 names × 2 kinds, versions '1'..'3' going back and forth, duplicate offers of the cached "
+             "version, malformed offers and delete metadata (no/empty version, empty name), failing preparers "
+             "(30 %), preparers declaring subscriptions incl. cycle-closing ones (offer raises SubscriptionCycle "
+             "after caching), full Kubernetes metadata (generation moving independently of resourceVersion, uid, "
+             "labels, annotations, managedFields, creationTimestamp), deletes by name / current version / stale "
+             "version / empty version / metadata with any version, delete-then-re-offer of the old version; "
+             "family B: 3-14 ops with acyclic subscriptions and event-loop turns (background re-preparation), "
+             "oracle only. Non-trivial = at least three different kinds of event (prepared-ok, prepared-failed, "
+             "cached-ok, cached-failed, raisedCycle, typeError, delete-removed, delete-stale-kept, delete-absent, "
+             "deleteMeta-*, new version under the same generation, a version offered again after another one) "
+             "in one family-A history, or a watcher offered at two versions in a family-B history; distinct by op list",
     )
 
 
